@@ -23,22 +23,64 @@ OPTS = ["indent", "spacer", "quote", "newlinechar", "end_comment", "align_values
 def check_option_plumbing(ctx: Ctx, e, RID: str = "L2") -> None:
     repo, facts = ctx.repo, e.facts
     # ---- L2 --------------------------------------------------------------------------------------
-    ctx.rule(RID, "dump, save and dumps pass each of the seven options to the _pprint parameter of the same name; _pprint forwards name=name to PrettyPrinter; the constructor stores each option in the field the methods read", 5)
-    pp = repo.func("utils._pprint")
-    for q in ("utils.dump", "utils.save", "utils.dumps"):
-        cs = [c for c in facts.calls[q] if c.target == "utils._pprint"]
-        if len(cs) != 1:
-            ctx.finding(RID, f"{q} -> _pprint", repo.loc("utils", repo.func(q)), f"{q} does not call _pprint exactly once")
+    ctx.rule(RID, "each of the seven options given to dumps / dump / save arrives at the PrettyPrinter constructor parameter of the same name (evaluated with a recorder printer); the dictionary reaches pprint() and its text is returned / written; the constructor stores each option in the field the methods read", 5)
+    # evaluated with PrettyPrinter replaced by a recorder and every option an opaque marker: whatever
+    # helpers stand between the public function and the printer, each marker must arrive under the
+    # constructor parameter of the same name, the dictionary must reach pprint(), and the text pprint()
+    # returns must be what is returned / written
+    from ..absval import SOpaque, SObj as _SObj
+
+    TEXT = SStr.atom("formatted-text")
+    for q in ("utils.dumps", "utils.dump", "utils.save"):
+        fn = repo.func(q)
+        loc = repo.loc("utils", fn)
+        marks = {o: SOpaque("object", o) for o in OPTS}
+        dmark = SOpaque("object", "the-dictionary")
+        rec: dict = {"init": [], "pprint": [], "open": [], "write": []}
+
+        def init_stub(I_, self_obj, args, kwargs):
+            rec["init"].append(I_.bind("pprint.PrettyPrinter.__init__", repo.func("pprint.PrettyPrinter.__init__"), self_obj, list(args), dict(kwargs)))
+            return None
+
+        def pprint_stub(I_, self_obj, args, kwargs):
+            rec["pprint"].append(list(args))
+            return TEXT
+
+        def open_stub(fr, self_obj, args, kwargs):
+            rec["open"].append((list(args), dict(kwargs)))
+            return _SObj("file", {"opened": True}, methods=("write", "close", "flush", "__enter__", "__exit__"))
+
+        def method_hook(fr, recv, name, args, kwargs, node):
+            if isinstance(recv, _SObj) and recv.pytype == "file":
+                if name == "write":
+                    rec["write"].append((recv, list(args)))
+                    return None
+                if name in ("close", "flush", "__enter__", "__exit__"):
+                    return recv if name == "__enter__" else None
+            return NotImplemented
+
+        I2 = e.interp(stubs={"pprint.PrettyPrinter.__init__": init_stub, "pprint.PrettyPrinter.pprint": pprint_stub, "ext:codecs.open": open_stub, "ext:open": open_stub, "ext:io.open": open_stub, "hook:method": method_hook}, allow_fork=False)
+        fp = _SObj("file", {"given": True}, methods=("write", "close", "flush"))
+        target = SStr.atom("output-file-name")
+        pos = [dmark] + ([fp] if q == "utils.dump" else [target] if q == "utils.save" else [])
+        outs = I2.explore(q, lambda: (None, list(pos), dict(marks)))
+        if len(outs) != 1 or outs[0].kind != "return":
+            raise AnalysisError(f"{q} not evaluable with a recorder printer: {[(o.kind, o.exc) for o in outs]}")
+        if len(rec["init"]) != 1:
+            ctx.finding(RID, f"{q} -> PrettyPrinter", loc, f"{q} constructs PrettyPrinter {len(rec['init'])} time(s)")
             continue
-        b = bind_args(cs[0].node, pp)
-        bad = [(o, norm(b[o]) if b.get(o) is not None else None) for o in OPTS + ["d"] if not (isinstance(b.get(o), ast.Name) and b[o].id == o)]
-        ctx.check(not bad, RID, f"{q} -> _pprint option binding", repo.loc("utils", cs[0].node), "all by name", f"{q} binds {bad}: an option is swapped, dropped or replaced")
-    cs = [c for c in facts.calls["utils._pprint"] if c.target == "pprint.PrettyPrinter.__init__"]
-    if len(cs) != 1:
-        raise AnalysisError("anchor vanished: PrettyPrinter construction in _pprint")
-    b = bind_args(cs[0].node, repo.func("pprint.PrettyPrinter.__init__"), skip_self=True)
-    bad = [(o, norm(b[o]) if b.get(o) is not None else None) for o in OPTS if not (isinstance(b.get(o), ast.Name) and b[o].id == o)]
-    ctx.check(not bad, RID, "_pprint -> PrettyPrinter option binding", repo.loc("utils", cs[0].node), "all by name", f"_pprint binds {bad}")
+        env1 = rec["init"][0]
+        bad = [(o, env1.get(o)) for o in OPTS if env1.get(o) is not marks[o]]
+        ctx.check(not bad, RID, f"{q} -> PrettyPrinter option binding", loc, "all seven options by name", f"{q}: the printer is constructed with {bad}: an option is swapped, dropped or replaced on the way")
+        ctx.check(rec["pprint"] == [[dmark]], RID, f"{q} prints its dictionary argument", loc, "", f"{q}: pprint() is called with {rec['pprint']}")
+        if q == "utils.dumps":
+            ctx.check(outs[0].value == TEXT, RID, "dumps returns the formatted text", loc, "", f"dumps returns {outs[0].value!r}")
+        elif q == "utils.dump":
+            ctx.check(len(rec["write"]) == 1 and rec["write"][0][0] is fp and rec["write"][0][1] == [TEXT] and not rec["open"], RID, "dump writes the formatted text to fp", loc, "", f"dump: writes {[(w[0] is fp, w[1]) for w in rec['write']]}, opens {rec['open']}")
+        else:
+            opened = rec["open"]
+            okw = len(opened) == 1 and opened[0][0][:1] == [target] and (opened[0][0][1:2] == ["w"] or opened[0][1].get("mode") == "w") and opened[0][1].get("encoding") == "utf-8"
+            ctx.check(okw and len(rec["write"]) == 1 and rec["write"][0][1] == [TEXT], RID, "save writes the formatted text to the file it was given, as UTF-8", loc, "", f"save: opens {opened}, writes {[w[1] for w in rec['write']]}")
     # constructor stores (PAI with symbolic options)
     I = e.interp(allow_fork=False)
 
@@ -68,12 +110,6 @@ def check_option_plumbing(ctx: Ctx, e, RID: str = "L2") -> None:
     if not (isinstance(q, pai.Inst) and q.attrs.get("quote") == '"' and q.attrs.get("altquote") == "'"):
         bad.append("quote")
     ctx.check(not bad, RID, "PrettyPrinter.__init__ stores every option", repo.loc("pprint", repo.func("pprint.PrettyPrinter.__init__")), "fields = options (spacer = spacer*indent)", f"constructor does not store option(s) {bad} in the field of that name")
-    # dump writes, save saves
-    d = repo.func("utils.dump")
-    w = [c for c in calls_in(d) if isinstance(c.func, ast.Attribute) and c.func.attr == "write" and dotted(c.func.value) == "fp"]
-    ctx.check(len(w) == 1 and isinstance(w[0].args[0], ast.Name), RID, "dump writes the _pprint result to fp", repo.loc("utils", d), "", "dump does not write the formatted string to fp")
-    sv = [c for c in facts.calls["utils.save"] if c.target == "utils._save"]
-    ctx.check(len(sv) == 1, RID, "save -> _save", repo.loc("utils", repo.func("utils.save")), "", "save does not write through _save")
 
 
 
@@ -86,24 +122,55 @@ def run(ctx: Ctx) -> None:
     # ---- L1 --------------------------------------------------------------------------------------
     ctx.rule("L1", "open, load and loads construct Parser(expand_includes=, include_comments=, **kwargs) and MapfileToDict(include_position=, include_comments=, **kwargs) from their same-named parameters, reach Parser.parse and return m.transform(ast)", 9)
     entry = {"utils.open": ("parser.Parser.parse_file", "fn"), "utils.load": ("parser.Parser.load", "fp"), "utils.loads": ("parser.Parser.parse", "s")}
+    # evaluated with the two worker classes replaced by recorders and every option an opaque marker:
+    # whatever helpers stand in between, the markers must arrive under the parameters of the same name
+    from ..absval import SOpaque, SObj
+    from .. import pai as _pai
+
     for q, (pm, src) in entry.items():
         fn = repo.func(q)
         loc = repo.loc("utils", fn)
-        ctor = {cs.target: cs for cs in facts.calls[q] if cs.target and cs.target.endswith("__init__")}
-        for cls, names in (("parser.Parser.__init__", ["expand_includes", "include_comments"]), ("transformer.MapfileToDict.__init__", ["include_position", "include_comments"])):
-            cs = ctor.get(cls)
-            if cs is None:
-                ctx.finding("L1", f"{q}: constructs {cls.split('.')[1]}", loc, f"{q} does not construct {cls}")
+        marks = {n: SOpaque("object", n) for n in ("input", "expand_includes", "include_position", "include_comments", "custom_option")}
+        rec: dict = {"parser": [], "todict": [], "parse": [], "transform": []}
+        tree = SObj("Tree", {"data": "start", "children": []})
+        result = SOpaque("object", "transform-result")
+
+        def ctor(kind, qual):
+            def stub(I_, self_obj, args, kwargs, kind=kind, qual=qual):
+                rec[kind].append(I_.bind(qual, repo.func(qual), self_obj, list(args), dict(kwargs)))
+                return None
+
+            return stub
+
+        def parse_stub(I_, self_obj, args, kwargs):
+            rec["parse"].append((list(args), dict(kwargs)))
+            return tree
+
+        def transform_stub(I_, self_obj, args, kwargs):
+            rec["transform"].append((list(args), dict(kwargs)))
+            return result
+
+        stubs = {"parser.Parser.__init__": ctor("parser", "parser.Parser.__init__"), "transformer.MapfileToDict.__init__": ctor("todict", "transformer.MapfileToDict.__init__"), "transformer.MapfileToDict.transform": transform_stub}
+        for m_ in ("parse_file", "load", "parse"):
+            stubs[f"parser.Parser.{m_}"] = parse_stub
+        I1 = e.interp(stubs=stubs, allow_fork=False)
+        kw = {"expand_includes": marks["expand_includes"], "include_position": marks["include_position"], "include_comments": marks["include_comments"], "custom_option": marks["custom_option"]}
+        outs = I1.explore(q, lambda: (None, [marks["input"]], dict(kw)))
+        if len(outs) != 1 or outs[0].kind != "return":
+            raise AnalysisError(f"{q} not evaluable with recorder workers: {[(o.kind, o.exc) for o in outs]}")
+        for kind, cls, names in (("parser", "Parser", ["expand_includes", "include_comments"]), ("todict", "MapfileToDict", ["include_position", "include_comments"])):
+            envs = rec[kind]
+            if len(envs) != 1:
+                ctx.finding("L1", f"{q}: constructs {cls}", loc, f"{q} constructs {cls} {len(envs)} time(s)")
                 continue
-            b = bind_args(cs.node, repo.func(cls), skip_self=True)
-            good = all(isinstance(b.get(n), ast.Name) and b[n].id == n for n in names) and "**" in b
-            ctx.check(good, "L1", f"{q}: {cls.split('.')[1]} options", repo.loc("utils", cs.node), "by-name flows", f"{q} builds {cls.split('.')[1]} with {[(n, norm(b[n]) if b.get(n) is not None else None) for n in names]}: options are swapped, dropped or constant")
-        pc = [cs for cs in facts.calls[q] if cs.target == pm]
-        good = bool(pc) and pc[0].node.args and isinstance(pc[0].node.args[0], ast.Name) and pc[0].node.args[0].id == src
-        ctx.check(good, "L1", f"{q}: parses its input via {pm.split('.')[-1]}", loc, "", f"{q} does not hand {src} to {pm}")
-        rets = [n for n in ast.walk(fn) if isinstance(n, ast.Return)]
-        tr = [cs for cs in facts.calls[q] if cs.target == "transformer.MapfileToDict.transform"]
-        ctx.check(len(tr) == 1 and len(rets) == 1, "L1", f"{q}: returns the transform result", loc, "", f"{q}: {len(tr)} transform calls, {len(rets)} returns")
+            env1 = envs[0]
+            extra = env1.get("kwargs")
+            good = all(env1.get(n) is marks[n] for n in names) and isinstance(extra, dict) and extra.get("custom_option") is marks["custom_option"]
+            ctx.check(good, "L1", f"{q}: {cls} options", loc, "by-name flows", f"{q} builds {cls} with {[(n, env1.get(n)) for n in names]} and extra options {dict(extra) if isinstance(extra, dict) else extra}: options are swapped, dropped or constant")
+        good = len(rec["parse"]) == 1 and rec["parse"][0][0][:1] == [marks["input"]]
+        ctx.check(good, "L1", f"{q}: parses its input via the Parser", loc, "", f"{q} does not hand {src} to the parser (calls: {rec['parse']})")
+        good = len(rec["transform"]) == 1 and rec["transform"][0][0][:1] == [tree] and outs[0].value is result
+        ctx.check(good, "L1", f"{q}: returns the transform result", loc, "", f"{q}: transform calls {rec['transform']}, returns {outs[0].value!r}")
     for q, fwd in (("parser.Parser.parse_file", "parser.Parser.parse"), ("parser.Parser.load", "parser.Parser.parse")):
         ctx.check(any(cs.target == fwd for cs in facts.calls[q]), "L1", f"{q} -> parse", repo.loc("parser", repo.func(q)), "", f"{q} does not go through Parser.parse")
 
